@@ -554,7 +554,7 @@ def _gen_B(kind, locs, places, padal, variants):
 # projection's own valid area (no clamp is documented for projected coordinates; PROJ answers off-earth points of
 # Mollweide / Equal Earth with inf or with a wrapped longitude): cylindrical projections: the world rectangle inset by
 # 0.1%; Equal Earth: |x| <= 0.99 * half length of the pole line, all latitudes; Mollweide: a rectangle inscribed in the
-# ellipse (0.6 x 0.8 of the half axes, up to ~61 deg latitude).  A projected destination centre is additionally required
+# ellipse (0.99 * (0.6, 0.8) of the half axes, up to ~60 deg latitude).  A projected destination centre is additionally required
 # to survive the round trip projected -> lon/lat -> projected (1e-6 of a pixel), else it is not a place on earth.
 MOLL = "+proj=moll +lon_0=0 +datum=WGS84 +units=m +no_defs"
 PROJ_G = {"4087": 4087, "6933": 6933, "8857": 8857, "moll": MOLL, "3857": 3857}
@@ -590,7 +590,7 @@ def proj_raster(pname, pdeg):
     elif pname == "8857":
         fx, fy = 0.99 * t.transform(180.0, 90.0)[0] / x0, 0.999
     elif pname == "moll":
-        fx, fy = 0.6, 0.8
+        fx, fy = 0.6 * 0.99, 0.8 * 0.99  # corners strictly inside the ellipse
     else:
         fx, fy = 0.999, 0.999
     xmax, ymax = fx * x0, fy * y0
